@@ -2,13 +2,13 @@
 import AnyTLS.Drv.Util
 import AnyTLS.Drv.Frame
 import AnyTLS.Drv.Sess
+import AnyTLS.Drv.Pipe
 
 open AnyTLS.Drv
 
 structure DrvState where
   sess : Option MNode := none
-  pipeC : Option MNode := none
-  pipeS : Option MNode := none
+  pipe : Option MPipe := none
 
 def sessLine (st : DrvState) (toks : List String) : DrvState × String :=
   match toks with
@@ -24,10 +24,25 @@ def sessLine (st : DrvState) (toks : List String) : DrvState × String :=
       | some (n', o) => ({ st with sess := some n' }, o)
       | none => (st, "bad-op")
 
+def pipeLine (st : DrvState) (toks : List String) : DrvState × String :=
+  match toks with
+  | "reset" :: rest =>
+    match pipeReset rest with
+    | some (p, o) => ({ st with pipe := some p }, o)
+    | none => ({ st with pipe := none }, "reject")
+  | _ =>
+    match st.pipe with
+    | none => (st, "nonode")
+    | some p =>
+      match pipeOp p toks with
+      | some (p', o) => ({ st with pipe := some p' }, o)
+      | none => (st, "bad-op")
+
 def dispatch (st : DrvState) (line : String) : DrvState × String :=
   match tokens line with
   | "frame" :: rest => (st, frameOp rest)
   | "sess" :: rest => sessLine st rest
+  | "pipe" :: rest => pipeLine st rest
   | _ => (st, "bad-op")
 
 partial def loop (h : IO.FS.Stream) (out : IO.FS.Stream) (st : DrvState) : IO Unit := do
